@@ -124,3 +124,12 @@ prop("C14",
      rule="documents from the grammar sentence generator (vocabulary of the kitchen schema when type tracking is on); policies aim at existing pre-order indices; forms: KindFuncMap{Kind,Leave}, KindFuncMap{Enter,Leave}, generic Enter/Leave (with EnterKindMap traps), Enter/LeaveKindMap, mixture. Also: no-edit traversal leaves the tree identical, second traversal gives the same number of events. Non-trivial = a skip/break in some policy, or >= 2 parallel visitors, or a type-system document; distinct by hash of the case.",
      assumptions=SYN_ASSUME,
      runs=[dict(test="^TestC14$", quick=dict(checks=4000), thorough=dict(checks=40000, shards=16, timeout=3000))])
+
+prop("C18",
+     level_text="generated-input search (rapid): (a) syntactically corrupted documents under CR/LF/CRLF layouts: the (line, column) of the syntax error, converted by the harness's own line splitter, must fall inside the first token / malformed lexeme at which the reference parser says the text stops being a valid prefix; (b) validation errors of injected violations must be located at the start of a node the violated rule may blame; (c) field errors: path = response keys and indices of a field the reference says fails, data at the path or a prefix is null, every location is the start of an occurrence of that field",
+     note="columns are accepted counted in bytes or in characters; inputs on which KF-C03-offsets can act (multi-byte characters before the error position) and errors inside malformed type references (KF-C03-typeref) are excluded and counted",
+     technique="property-based testing (rapid): positions recomputed independently (reference parser spans, printer offset table, reference interpreter paths)",
+     rule="(a) grammar sentences with one token mutation and optionally one byte mutation (truncation, quote, backslash, NUL, dot, bad number characters, line terminators); (b) valid documents with one injected violation per rule, hostile ASCII layouts; (c) C04-style adversarial executions printed under drawn layouts. Non-trivial = an error on a text containing a line terminator, or a path with a list index; distinct by text / case hash.",
+     assumptions=SYN_ASSUME + EXEC_ASSUME,
+     runs=[dict(test="^TestC18_Syntax$", quick=dict(checks=10000), thorough=dict(checks=100000, shards=16, timeout=3000)),
+           dict(test="^TestC18_Field$", quick=dict(checks=2500), thorough=dict(checks=25000, shards=16, timeout=3000))])
